@@ -532,6 +532,27 @@ func c16(c *core.Ctx, r *core.Report) {
 				nSites++
 				fld, _ := an.TerminalField(an.EventFV(e, call.Common().Args[0]).Resolve(nil).V)
 				key := core.FuncName(fn) + "#WithLabelValues"
+				if fld != nil && names[fld.Name()] == nil && !strings.HasSuffix(fld.Type().String(), "prometheus.SummaryVec") {
+					// a further vector fed next to a summary (a histogram of the same durations): it carries the right labels when
+					// it is given the very label values a summary vector is given in the same function
+					same := false
+					for _, other := range an.AllCalls(call.Parent()) {
+						if other == call || an.Callee(other) == nil || an.Callee(other).Name() != "WithLabelValues" || len(other.Common().Args) < 2 || len(call.Common().Args) < 2 {
+							continue
+						}
+						of, _ := an.TerminalField(other.Common().Args[0])
+						if of != nil && names[of.Name()] != nil && other.Common().Args[1] == call.Common().Args[1] {
+							same = true
+						}
+					}
+					nSites--
+					if same {
+						r.OK(key+":"+fld.Name(), an.Pos(c, call), "%s is given the same label values as the summary vector observed next to it", fld.Name())
+					} else {
+						r.Note(key+":"+fld.Name(), an.Pos(c, call), "label values of the additional vector %s are not compared with its names", fld.Name())
+					}
+					continue
+				}
 				if fld == nil || names[fld.Name()] == nil {
 					r.Undecided(key, an.Pos(c, call), "cannot tell which vector is observed")
 					continue
@@ -746,6 +767,33 @@ func c16(c *core.Ctx, r *core.Report) {
 			}
 			exits := an.PathCount(reset, an.CallWeight(isResetOf, 0))
 			tot, ok := an.Total(exits, false)
+			if ok && tot.Lo == 0 && tot.Hi >= 1 {
+				// an optional vector: reset whenever it exists (the only condition on the reset is `vector != nil`)
+				onlyNilGuard := true
+				found := false
+				for _, call := range an.AllCalls(reset) {
+					if !isResetOf(call, an.Callee(call)) {
+						continue
+					}
+					found = true
+					for _, g := range an.GuardsOf(call.Block()) {
+						bo, isBin := g.Cond.(*ssa.BinOp)
+						gf, _ := an.TerminalField(func() ssa.Value {
+							if isBin {
+								return bo.X
+							}
+							return nil
+						}())
+						if !isBin || !isNilConst(bo.Y) || gf == nil || !an.SameField(gf, f) || (bo.Op == token.NEQ) != g.Polarity {
+							onlyNilGuard = false
+						}
+					}
+				}
+				if found && onlyNilGuard {
+					r.OK("Metrics.Reset#"+f.Name(), c.Pos(reset.Pos()), "Reset resets %s whenever it exists", f.Name())
+					continue
+				}
+			}
 			r.Check(ok && tot.Lo >= 1, "Metrics.Reset#"+f.Name(), c.Pos(reset.Pos()), "Reset resets "+f.Name()+" on every path", "Metrics.Reset does not reset "+f.Name()+": samples of an earlier run in the same process are mixed into this run's metric")
 		}
 		do, _ := runDo(c)
